@@ -83,7 +83,7 @@ def main(tier, seed, replay=None):
     seqs = core(3 if tier == "quick" else 4)
     progs = [cont.from_core(s, "k%05d" % i, "vector" if i % 2 == 0 else "string") for i, s in enumerate(seqs)]
     ncore = len(progs)
-    progs += cont.generate(seed * 1000 + 21, 300 if tier == "quick" else 6000, "r")
+    progs += cont.generate(seed * 1000 + 21, 300 if tier == "quick" else 4000, "r")
     work = vlib.mktmp("c02")
     stats = {}
     nfacts = cont.analyse(progs, work, stats)
@@ -125,7 +125,7 @@ def main(tier, seed, replay=None):
         for f in progs[p]["mf"][m - 1]:
             kinds[f["k"]] = kinds.get(f["k"], 0) + 1
     sample = progs[ncore] if len(progs) > ncore else progs[0]
-    cov = {"states": states, "transitions": gen, "evaluations": len(rows), "distinct_nontrivial": len(exercised),
+    cov = {"states": states, "transitions": gen, "traces_validated_against_impl": len(done), "evaluations": len(rows), "distinct_nontrivial": len(exercised),
            "rule": "one evaluation = one execution (program, input vector) explored by TLC; distinct non-trivial = distinct (program, container "
                    "mention) pairs that carry at least one size fact and were evaluated by at least one completed UB-free execution",
            "exhaustive": False, "programs": len(progs), "core_programs": ncore, "core_exhaustive": True,
